@@ -186,7 +186,8 @@ func (c03) Rule() string {
 	return "each run: seeded tree over the hostile alphabet (marker runes, newlines anywhere, empty, NUL, invalid UTF-8, printf verbs); every string entering through a channel " +
 		"the property lists as unsafe carries a unique alphanumeric token; observed locally and after every hop of a route over knowing and unknowing processes ending at a knowing one; " +
 		"oracle: no unsafe token in Redact()ed %v/%+v, GetAllSafeDetails / per-node GetSafeDetails, reportable payloads / type names / marks on the wire at any nesting level, " +
-		"Sentry event JSON and extras; distinct = (constructor-shape signature x profile sequence x route length); non-trivial = at least one unsafe token and >= 2 layers"
+		"Sentry event JSON and extras; printf arguments use other verbs and positions than the default, values of application types (SafeFormatter with an unsafe part, Stringer) occur as " +
+		"arguments and tag values, strings of several hundred bytes, rarely a chain of 130+ layers; distinct = (constructor-shape signature x profile sequence x route length); non-trivial = at least one unsafe token and >= 2 layers"
 }
 
 // piiFreeOutputs computes every output the library declares PII-free.
@@ -311,6 +312,7 @@ func (c06) Rule() string {
 	return "each run: seeded tree (hostile alphabet in 2/3 of the runs for well-formedness, regular alphabet in 1/3 for congruence), observed in its local state and, after each hop of a " +
 		"route over knowing and unknowing processes, in its decoded and opaque states; oracles: redact %v/%s/%+v have balanced, non-nested markers, balanced within every line; " +
 		"for regular strings stripping markers gives exactly the fmt rendering via Formattable; %q/%x/%X through redact show no unsafe token (plain or hex) outside markers; " +
+		"in 1/6 of the runs an unrelated formatting call whose method panics half-way (swallowed by fmt/redact) is made between two renderings of the same error, which must be equal; " +
 		"distinct = (alphabet x constructor-shape signature x profile sequence x route length); non-trivial = >= 2 layers"
 }
 
@@ -482,8 +484,8 @@ func (c12) ID() string { return "C12" }
 
 func (c12) Rule() string {
 	return "each run: seeded tree over the regular alphabet where every string entering through a channel the library declares safe carries a unique token; observed locally and " +
-		"after every hop between knowing processes; oracle: every safe token (not under a Mark reference), every layer's type name and the innermost function of every captured stack " +
-		"occurs in the Sentry event/extras or in GetAllSafeDetails; distinct = (constructor-shape signature x route length); non-trivial = at least one safe token and >= 2 layers"
+		"after every hop between knowing processes; oracle: every safe token (not under a Mark reference), every layer's type name, every frame of every captured stack and every well-known " +
+		"sentinel text the origin's report shows unredacted occurs in the Sentry event/extras or in GetAllSafeDetails, also when asked a second time; distinct = (constructor-shape signature x route length); non-trivial = at least one safe token and >= 2 layers"
 }
 
 func (c12) Run(t *tape.Tape, tier Tier) *Result {
